@@ -68,7 +68,8 @@ def build(rng, facts, name):
             b.kmerge("c", "sd"); b.kmerge(fresh, "sd")
         # history after Clear on the cleared sketch and on its fresh twin: narrower / earlier ranges
         history(rng, b, ["c", fresh], spec, rng.randint(2, 20), rng.choice([-1, 0, -2]), rng.choice([0, 1, 2]))
-        if exact and rng.random() < 0.3:          # ... and the exact sum leaves the float range again after Clear: the same infinity as on a new sketch
+        if exact and "dense" not in (kp, kn) and rng.random() < 0.4:          # (not on unbounded arrays: values next to the top of the range would make the run a test of array growth)
+            # ... and the exact sum leaves the float range again after Clear: the same infinity as on a new sketch
             big = facts[spec]["max"] * 0.5; sg = rng.choice((1, -1))
             if big > 1e290:
                 for r in ("c", fresh): b.kadd(r, sg * big, 16.0); b.kadd(r, sg * big * 0.5, 64.0); b.kadd(r, sg * 3.0)          # small dyadic weights: the bins stay exact
